@@ -1,7 +1,7 @@
 """Native reproductions of the recorded findings (each returns the standard bounded-check dict; a failure here is a
 *known* finding when it is listed in /verif/known_findings.json, a new violation otherwise)."""
 import asyncio
-import tempfile
+import shutil, tempfile
 import types
 from pathlib import Path
 
@@ -70,7 +70,10 @@ def run_c06_lost_ready(tier, seed):
             t.cancel()
         finally:
             base.experiment.CURRENT = saved
-    asyncio.run(main())
+    try:
+        asyncio.run(main())
+    finally:
+        shutil.rmtree(tmp, ignore_errors=True)
     failures = []
     if not out.get("done") and out.get("unsatisfied") == 0 and not out.get("event"):
         failures.append(dict(name="C06 lost READY after an aborted start: job asleep in WAITING with unsatisfied == 0", case="lost-ready:abort+release-during-unwind", **out))
